@@ -362,6 +362,11 @@ def cmd_run(a):
         todo = [m for m in todo if any(s in m["file"] for s in subs)]
     if a.ops:
         todo = [m for m in todo if m["op"] in a.ops.split(",")]
+    if a.sample:
+        import random
+
+        random.Random(a.seed).shuffle(todo)
+        todo = todo[: a.sample]
     if a.max:
         todo = todo[: a.max]
     print(len(todo), "mutants to evaluate", flush=True)
@@ -436,6 +441,8 @@ if __name__ == "__main__":
     r.add_argument("--files")
     r.add_argument("--ops")
     r.add_argument("--max", type=int)
+    r.add_argument("--sample", type=int, help="evaluate a seeded random sample of the not yet evaluated mutants")
+    r.add_argument("--seed", type=int, default=1)
     r.add_argument("--others", action="store_true")
     r.add_argument("--full", action="store_true")
     sub.add_parser("report")
